@@ -17,6 +17,7 @@ use astria_eyre::{
     },
 };
 use moka::future::Cache;
+#[cfg(not(all(test, feature = "verif")))]
 use sequencer_client::{
     tendermint::block::{
         signed_header::SignedHeader,
@@ -26,6 +27,19 @@ use sequencer_client::{
     Client as _,
     HttpClient as SequencerClient,
 };
+// verif hook: under the simulation harness the CometBFT client is the simulator's in-process
+// fake.
+#[cfg(all(test, feature = "verif"))]
+use sequencer_client::{
+    tendermint::block::{
+        signed_header::SignedHeader,
+        Height as SequencerHeight,
+    },
+    tendermint_rpc,
+    Client as _,
+};
+#[cfg(all(test, feature = "verif"))]
+use self::verif::SimClient as SequencerClient;
 use tokio_util::task::JoinMap;
 use tower::{
     util::BoxCloneSyncService,
